@@ -48,6 +48,24 @@ def main(job_path: str) -> int:
     js = out.with_suffix('.json')
     res['json'] = json.loads(js.read_text()) if js.exists() else None
     res['events'] = [json.loads(ln) for ln in log.read_text().splitlines()] if log.exists() else []
+    if job.get('second'):
+        # a second Monte-Carlo run in the SAME process: the base file is rewritten in place (same path), as a long-lived caller would do
+        if log.exists():
+            log.unlink()
+        base.write_text(job['second']['base'])
+        settings.write_text(job['second']['settings'])
+        out2 = d / 'MC_Result_2.txt'
+        res2 = {'error': None}
+        try:
+            with contextlib.redirect_stdout(sink), contextlib.redirect_stderr(sink):
+                GeophiresMonteCarloClient().get_monte_carlo_result(MonteCarloRequest(SimulationProgram[job['program']], base, settings, output_file=out2))
+        except BaseException as e:  # noqa
+            res2['error'] = f'{type(e).__name__}: {e}'[:500]
+        res2['file'] = out2.read_text() if out2.exists() else None
+        js2 = out2.with_suffix('.json')
+        res2['json'] = json.loads(js2.read_text()) if js2.exists() else None
+        res2['events'] = [json.loads(ln) for ln in log.read_text().splitlines()] if log.exists() else []
+        res['second'] = res2
     Path(job_path + '.result.json').write_text(json.dumps(res))
     return 0
 
